@@ -27,6 +27,7 @@ from hsverif.family import Family, merge_stats, run_family
 
 IMPORTS = "From HS Require Import Base.Prelude C19.Model."
 IMPORTS_S = "From HS Require Import Base.Prelude C19.Model C19.StreamModel."
+IMPORTS_O = "From HS Require Import Base.Prelude C19.Model C19.OutboxModel."
 IMPORTS_T = "From HS Require Import Base.Prelude C19.Model C19.TopicModel."
 LEVEL = "proof"
 UNIT_NS = 15_625_000          # 1/64 s: every scripted delay is a multiple (exact in binary floating point)
@@ -981,6 +982,161 @@ def attribute_stream(c, obs, f):
 
 STREAM_CASE = "(nat * (Z * Z) * Z * list (Z * Z)) * list (sop * sout * ssnap)"
 
+
+# =========================================================================== OutboxRelay
+def gen_outbox(rng):
+    script = []
+    t = 0
+    for _ in range(rng.randint(1, 14)):
+        t += rng.choice([0, 1, 1, 2, 3, 7])
+        k = rng.random()
+        if k < 0.6:
+            script.append([t, "write", rng.randint(1, 4), rng.random() < 0.6])
+        elif k < 0.8:
+            script.append([t, "nudge"])
+        else:
+            script.append([t, "prime"])
+    return dict(batch=rng.choice([1, 2, 3, 100]), latency=rng.choice([0, 1, 1, 2]), interval=rng.choice([1, 2, 4]), script=script)
+
+
+def impl_outbox(c):
+    logging.disable(logging.CRITICAL)
+    from happysimulator.components.microservice.outbox_relay import OutboxRelay
+    from happysimulator.core.entity import Entity
+    from happysimulator.core.event import Event
+    from happysimulator.core.simulation import Simulation
+    from happysimulator.core.temporal import Instant
+
+    trace, received = [], []
+
+    class Down(Entity):
+        def handle_event(self, ev):
+            received.append(dict(id=ev.context["metadata"]["entry_id"], t=self.now.nanoseconds, evt=ev.time.nanoseconds))
+            return []
+
+    down = Down("down")
+    ob = OutboxRelay("ob", down, poll_interval=c["interval"] * UNIT_S, batch_size=c["batch"], relay_latency=c["latency"] * UNIT_S)
+    st = {"h": 0}
+
+    def now():
+        return ob._clock.now.nanoseconds if ob._clock else 0
+
+    def snap():
+        s = ob.stats
+        return dict(flags=[bool(e.relayed) for e in ob._entries], ctr=[s.entries_written, s.entries_relayed, s.poll_cycles],
+                    sched=bool(ob._poll_scheduled))
+
+    def rec(op, outs):
+        trace.append(dict(op=op, outs=outs, snap=snap(), t=now()))
+
+    def evs_out(evs):
+        out = []
+        for e in evs or []:
+            if e.event_type == "outbox_relay":
+                out.append(["ORelay", e.context["metadata"]["entry_id"], e.time.nanoseconds])
+            else:
+                out.append(["OPollAt", e.time.nanoseconds])
+        return out
+
+    o_write, o_prime, o_handle, o_poll = ob.write, ob.prime_poll, ob.handle_event, ob._handle_poll
+
+    def write(payload):
+        i = o_write(payload)
+        rec(["OWrite"], [["OWritten", i]])
+        return i
+
+    def prime_poll():
+        e = o_prime()
+        rec(["OPrimeDirect", now()], evs_out([e]))
+        return e
+
+    def handle_poll(event):
+        st["h"] += 1
+        h = st["h"]
+        inner = o_poll(event)
+        first = True
+        sent = None
+        while True:
+            op = ["OPollBegin", h, now()] if first else ["OPollResume", h, now()]
+            try:
+                y = next(inner) if first else inner.send(sent)
+            except StopIteration as e:
+                rec(op, evs_out(e.value))
+                return e.value
+            rec(op, [["OYield"]])
+            first = False
+            sent = yield y
+
+    def handle_event(event):
+        r = o_handle(event)
+        if not event.event_type.startswith("_outbox_poll::"):
+            rec(["OPrimeEvent", now()], evs_out(r))
+        return r
+
+    ob.write, ob.prime_poll, ob._handle_poll, ob.handle_event = write, prime_poll, handle_poll, handle_event
+
+    class Writer(Entity):
+        def handle_event(self, ev):
+            a = ev.context["a"]
+            if a[1] == "write":
+                for _ in range(a[2]):
+                    ob.write({"n": 1})
+                return [Event(time=self.now, event_type="nudge", target=ob)] if a[3] else []
+            if a[1] == "nudge":
+                return [Event(time=self.now, event_type="nudge", target=ob)]
+            return [ob.prime_poll()]
+
+    wr = Writer("wr")
+    last = c["script"][-1][0] if c["script"] else 0
+    sim = Simulation(entities=[ob, down, wr], end_time=Instant((last + 30) * UNIT_NS))
+    for a in c["script"]:
+        sim.schedule(Event(time=Instant(a[0] * UNIT_NS), event_type="act", target=wr, context={"a": a}))
+    sim.run()
+    return dict(trace=trace, received=received, end=(last + 30) * UNIT_NS)
+
+
+def encode_outbox(c, obs):
+    cfg = Ctor("Build_obcfg", c["batch"], c["latency"] > 0, c["interval"] * UNIT_NS)
+    tr = [(Ctor(e["op"][0], *e["op"][1:]), [Ctor(o[0], *o[1:]) for o in e["outs"]],
+           (e["snap"]["flags"], e["snap"]["ctr"], e["snap"]["sched"])) for e in obs["trace"]]
+    return term((cfg, tr))
+
+
+def oracle_outbox(c, obs):
+    """Outbox: every entry that was written while a poll loop is (or gets) primed is relayed to the
+    downstream entity at least once, and every relay event is received at its time stamp."""
+    tr, recv = obs["trace"], obs["received"]
+    fails = []
+    emitted = [(o[1], o[2], e["t"]) for e in tr for o in e["outs"] if o[0] == "ORelay"]
+    for i, t, clock in emitted:
+        if clock >= obs["end"]:
+            continue        # returned at the very end of the run: the engine stops before delivering it
+        if not any(r["id"] == i and r["t"] == t for r in recv) or t != clock:
+            fails.append(dict(clause="outbox: every relayed entry reaches the downstream entity", mechanism="delivery-event-not-received",
+                              entry=i, event_time=t, clock=clock))
+            break
+    if tr:
+        final = tr[-1]["snap"]
+        primed_after_last_write = final["sched"]      # the poll loop is alive at the end
+        got = {r["id"] for r in recv}
+        open_polls = set()
+        for e in tr:
+            if e["op"][0] in ("OPollBegin", "OPollResume"):
+                (open_polls.add if e["outs"] == [["OYield"]] else open_polls.discard)(e["op"][1])
+        at_end = {i for i, t, clock in emitted if clock >= obs["end"]}
+        lost = [i + 1 for i, f in enumerate(final["flags"]) if f and (i + 1) not in got and (i + 1) not in at_end] if not open_polls else []
+        n = len(final["flags"])
+        cycles = -(-n // max(1, c["batch"])) + 1
+        enough_time = cycles * (c["interval"] + min(c["batch"], max(n, 1)) * c["latency"]) + c["interval"] <= 26
+        stuck = [i + 1 for i, f in enumerate(final["flags"]) if not f] if primed_after_last_write and enough_time else []
+        if lost or stuck:
+            fails.append(dict(clause="outbox: written entries are never lost (marked relayed implies received; primed loop drains the outbox)",
+                              marked_relayed_but_never_received=lost, still_pending_at_end=stuck))
+    return fails
+
+
+OUTBOX_CASE = "obcfg * list (oop * list oout * osnap)"
+
 MQ_CASE = "mqcfg * list (op * list out * dsnap)"
 
 FAMILIES = [
@@ -992,6 +1148,9 @@ FAMILIES = [
     Family("stream", IMPORTS_S, "ok_stream", STREAM_CASE, gen_stream, impl_stream, encode_stream, oracle_stream,
            lambda c, o: any(e["op"][0] in ("GJoinEnd", "GLeaveEnd") for e in o["trace"]) and any(e["op"][0] == "LAppend" for e in o["trace"]),
            attribute_stream, parallel=False, describe=lambda c: f"{c['strat']},parts={c['nparts']},ret={c['ret'][0]}"),
+    Family("outbox", IMPORTS_O, "ok_outbox", OUTBOX_CASE, gen_outbox, impl_outbox, encode_outbox, oracle_outbox,
+           lambda c, o: any(e["op"][0] == "OPollResume" for e in o["trace"]), parallel=False,
+           describe=lambda c: f"batch={c['batch']},lat={c['latency']}"),
 ]
 
 TRUSTED = [
@@ -1005,10 +1164,11 @@ TRUSTED = [
 
 def run(ctx):
     ctx.prove(["C19/Model.v", "C19/MQ.v", "C19/MQOrder.v", "C19/TopicModel.v", "C19/Topic.v",
-               "C19/StreamModel.v", "C19/Assign.v", "C19/Stream.v", "C19/Props.v"], allowed_axioms=(), trusted_base=TRUSTED)
+               "C19/StreamModel.v", "C19/Assign.v", "C19/Stream.v",
+               "C19/OutboxModel.v", "C19/Outbox.v", "C19/Props.v"], allowed_axioms=(), trusted_base=TRUSTED)
     ctx.coq_cases = lambda tag, imports, ok_fn, case_type, cases: coq.eval_cases(
-        f"{ctx.pid}_{tag}", imports, ok_fn, case_type, cases, shard=max(30, len(cases) // 10 + 1), workers=10)
-    counts = {"mq": ctx.n(90, 3000), "topic": ctx.n(60, 2000), "stream": ctx.n(90, 3000)}
+        f"{ctx.pid}_{tag}", imports, ok_fn, case_type, cases, shard=min(100, max(30, len(cases) // 10 + 1)), workers=10)
+    counts = {"mq": ctx.n(90, 1200), "topic": ctx.n(60, 800), "stream": ctx.n(90, 1200), "outbox": ctx.n(50, 600)}
     stats = [run_family(ctx, fam, counts[fam.name]) for fam in FAMILIES]
     merge_stats(ctx, stats, "scripted scenarios in a real Simulation; non-trivial = at least one completed delivery and one ack/reject/timeout; distinct by JSON of the input")
     ctx.finish_obligations()
